@@ -24,6 +24,9 @@ extern int n_ledger, alloc_count, fail_at, fail_from, trace_on, ledger_errors;
 extern char trace_buf[];
 extern size_t trace_len;
 extern unsigned char heap_fill;
+extern int prefill;
+extern size_t env_tail;
+extern unsigned char env_tail_byte;
 
 void *__real_malloc(size_t);
 void __real_free(void *);
